@@ -410,6 +410,11 @@ def run(facts, rep, tier):
     rep.rule("C10-R10", "= C09-R11 for the three conversions: every scope selector whose None makes changes give up also gates the offer.")
     from . import offers
     offers.rule_offer_implies_changes(facts, rep, "C10-R10", only=("ListChangeType", "ListToSections", "SectionToList"))
+    rep.rule("C10-R11", "= C04-R3 for the title cache: a conversion re-renders every link of the note with the title cached for its target, so the single-key update has to replace "
+             "that entry on every edit - insert on Some, remove on None - or a conversion overwrites the author's link text with the heading of an earlier version of the target.")
+    from . import c04 as _c04
+    from .c01 import _Only
+    _c04.rule_r3(facts, _Only(rep, "cache:keys_to_ref_text"), "C10-R11")
 
 class _Conv:
     """Forwards only the instances located in the list/section conversion actions."""
